@@ -122,9 +122,13 @@ or the name in front differs), hasParam std::binary_search.  parseAndRemove scan
 
 Refactor batch 9: the SI prefix may be chosen by counting how many entries of a strictly sorted constant threshold table the
 magnitude reaches (`k = counter(|v|); if (k > 0) print(v / SCALE[k-1], SUFFIX[k-1])`): one R-C18-3 rung per table entry
-(unsorted table, index k instead of k-1, scale / suffix / threshold mismatches are recognised wrong).  NOT decided: FileName
-accessors built on a struct of marks filled by a hand-written backward scan (C18-R17), constructor normalisation through
-std::replace_if + resize(find_last_not_of(sep) + 1) and a delegating constructor - the floors report those as undecided.
+(unsorted table, index k instead of k-1, scale / suffix / threshold mismatches are recognised wrong).  FileName accessors may
+read a struct of marks filled by one hand-written backward scan (marks_scan: exactly `for (i = s.size(); i-- > 0;)`, break at
+the separator after storing its index, the first '.' met stored once): the fields get the values the find_last_of pairs plus
+`dot > sep` give (forked into found / npos at the call), one-line const methods of the struct are evaluated in place.  A
+scan without the "still npos" guard leaves the FIRST dot of the component (R-C18-1 dot-search-first), one without the break
+the last dot of the whole name (dot-unguarded); any other loop shape is not summarised (undecided through the floors).  A
+constructor that delegates to another non-copy constructor counts as normalised by that one (R-C18-11).
 
 Helpers: file-local / private helpers are followed with parameters mapped (FileName position helpers are
 summarised into the typestate, a prefix-length index loop stands for std::mismatch, a lookup helper that scans
@@ -5060,6 +5064,227 @@ FNAME = 'rkcommon::FileName'
 DOTISH = ('D?', 'D', 'DX', 'DU', 'DU?')
 
 
+_MARKS_MEMO = {}
+
+
+def marks_scan(tu, hf):
+    """hf is a file-local helper of exactly this shape (anything else: None):
+
+         R scan(const std::string &s) {
+           R m;                                        // two size_t fields, both initialised to npos in the class
+           for (size_t i = s.size(); i-- > 0;) {
+             [const char c = s[i];]
+             if (c == SEP [|| c == SEP2]) { m.F1 = i; [break;] }
+             if (c == '.' [&& m.F2 is still npos]) m.F2 = i;
+           }
+           return m;
+         }
+
+    With the break and the guard, F1 is the position of the last separator (npos if none) and F2 the position of the last '.'
+    behind it (npos if none) - what find_last_of gives plus the comparison `dot > sep`.  Without the guard F2 is the FIRST '.' of
+    the last component; without the break F1 is not the last separator and F2 is the last '.' of the whole string.
+    {'rec', 'sep', 'dot', 'has_break', 'guarded'}"""
+    key = (id(tu), hf['id'] if hf else None)
+    if key in _MARKS_MEMO:
+        return _MARKS_MEMO[key]
+    _MARKS_MEMO[key] = None
+    if hf is None or hf['dep'] or hf.get('rec') or tu.body(hf) is None or len(hf.get('params', [])) != 1:
+        return None
+    par = hf['params'][0]
+    if 'basic_string' not in par['ct'] or not par['ct'].startswith('const '):
+        return None
+    rt = hf['fty'].split(' (')[0].strip()
+    recs = [r for r in tu.records.values() if r.get('q') == rt or r.get('type') == rt]
+    if len(recs) != 1:
+        return None
+    rec = recs[0]
+    flds = rec.get('fields', [])
+    if len(flds) != 2 or any(plain_ct(fl['ct']) != 'unsigned long' or not fl.get('hasinit') for fl in flds):
+        return None
+    x = FnX(tu, hf)
+    for fl in flds:
+        fd = tu.node(fl['id'])
+        ks = [y for y in (tu.kids(fd) if fd is not None else []) if not (y.get('kind') or '').endswith('Comment')]
+        if not ks or not any(_nposish(tu, x, y) for y in tu.walk(ks[-1])):
+            return None
+    stm = [y for y in tu.kids(tu.body(hf)) if y.get('kind')]
+    if len(stm) != 3 or [y.get('kind') for y in stm] != ['DeclStmt', 'ForStmt', 'ReturnStmt']:
+        return None
+    mv = [v for v in tu.kids(stm[0]) if v.get('kind') == 'VarDecl']
+    if len(mv) != 1:
+        return None
+    mid = mv[0]['id']
+    mk = tu.kids(mv[0])
+    if mk and not (mk[0].get('kind') == 'CXXConstructExpr' and not [y for y in tu.kids(mk[0]) if y.get('kind') != 'CXXDefaultArgExpr']):
+        return None
+    rv = x.peel(tu.kids(stm[2])[0]) if tu.kids(stm[2]) else None
+    if rv is None or rv.get('kind') != 'DeclRefExpr' or rv.get('referencedDecl', {}).get('id') != mid:
+        return None
+
+    def isref(e, did):
+        e = tu.strip(e, casts=True)
+        return e is not None and e.get('kind') == 'DeclRefExpr' and e.get('referencedDecl', {}).get('id') == did
+    fs = stm[1].get('inner', [])
+    if len(fs) != 5 or fs[1].get('kind') or fs[3].get('kind'):
+        return None
+    iv = [v for v in tu.kids(fs[0]) if v.get('kind') == 'VarDecl'] if fs[0].get('kind') == 'DeclStmt' else []
+    if len(iv) != 1 or not tu.kids(iv[0]):
+        return None
+    iid = iv[0]['id']
+    i0 = tu.strip(tu.kids(iv[0])[0], casts=True)
+    if i0 is None or i0.get('kind') != 'CXXMemberCallExpr' or last_name(tu.sd(i0).get('q')) not in ('size', 'length') or \
+            not isref(tu.call_parts(i0)[1], par['id']):
+        return None
+    c = tu.strip(fs[2], casts=True)
+    if c is None or c.get('kind') != 'BinaryOperator' or c.get('opcode') not in ('>', '!='):
+        return None
+    l, r = tu.kids(c)[:2]
+    l0 = tu.strip(l, casts=True)
+    if l0 is None or l0.get('kind') != 'UnaryOperator' or l0.get('opcode') != '--' or not l0.get('isPostfix') or \
+            not isref(tu.kids(l0)[0], iid) or num_const(tu, r) != 0:
+        return None
+    body = fs[4]
+    bst = [y for y in (tu.kids(body) if body.get('kind') == 'CompoundStmt' else [body]) if y.get('kind')]
+    cid = None
+    if bst and bst[0].get('kind') == 'DeclStmt':
+        cv = [v for v in tu.kids(bst[0]) if v.get('kind') == 'VarDecl']
+        if len(cv) != 1 or not tu.kids(cv[0]):
+            return None
+        cid = cv[0]['id']
+        if not _is_char_at(tu, tu.kids(cv[0])[0], par['id'], iid):
+            return None
+        bst = bst[1:]
+    if len(bst) != 2 or any(y.get('kind') != 'IfStmt' or len(tu.kids(y)) != 2 for y in bst):
+        return None
+
+    def is_char(e):
+        return (cid is not None and isref(e, cid)) or _is_char_at(tu, e, par['id'], iid)
+
+    def char_test(e):
+        """the character against a constant: 'sep' | 'dot' | None"""
+        e = tu.strip(e, casts=True)
+        while e is not None and e.get('kind') == 'ParenExpr':
+            e = tu.strip(tu.kids(e)[0], casts=True)
+        if e is None or e.get('kind') != 'BinaryOperator' or e.get('opcode') != '==':
+            return None
+        a, b = tu.kids(e)[:2]
+        for u, v in ((a, b), (b, a)):
+            if is_char(u):
+                cvv = x.poly_at(v, None).as_int()
+                if cvv in (47, 92):
+                    return 'sep'
+                if cvv == 46:
+                    return 'dot'
+        return None
+
+    def field_store(st_, fname=None):
+        st_ = tu.strip(st_, casts=True)
+        if st_ is None or st_.get('kind') != 'BinaryOperator' or st_.get('opcode') != '=':
+            return None
+        lhs = tu.strip(tu.kids(st_)[0], casts=True)
+        if lhs is None or lhs.get('kind') != 'MemberExpr' or not isref(tu.kids(lhs)[0], mid) or not isref(tu.kids(st_)[1], iid):
+            return None
+        return lhs.get('name')
+    # -- separator test
+    sc = tu.strip(tu.kids(bst[0])[0], casts=True)
+    parts = [sc]
+    if sc is not None and sc.get('kind') == 'BinaryOperator' and sc.get('opcode') == '||':
+        parts = tu.kids(sc)[:2]
+    if any(char_test(pz) != 'sep' for pz in parts):
+        return None
+    th = tu.kids(bst[0])[1]
+    ths = [y for y in (tu.kids(th) if th.get('kind') == 'CompoundStmt' else [th]) if y.get('kind')]
+    if not ths or len(ths) > 2:
+        return None
+    f1 = field_store(ths[0])
+    has_break = len(ths) == 2 and ths[1].get('kind') == 'BreakStmt'
+    if f1 is None or (len(ths) == 2 and not has_break):
+        return None
+    # -- dot test
+    dc = tu.strip(tu.kids(bst[1])[0], casts=True)
+    guarded = False
+    dth = tu.kids(bst[1])[1]
+    dths = [y for y in (tu.kids(dth) if dth.get('kind') == 'CompoundStmt' else [dth]) if y.get('kind')]
+    f2 = field_store(dths[0]) if len(dths) == 1 else None
+    if f2 is None or f2 == f1:
+        return None
+    if dc is not None and dc.get('kind') == 'BinaryOperator' and dc.get('opcode') == '&&':
+        a, b = tu.kids(dc)[:2]
+        if char_test(a) != 'dot':
+            return None
+        g = tu.strip(b, casts=True)
+        neg = False
+        while g is not None and g.get('kind') in ('UnaryOperator', 'ParenExpr') and (g.get('kind') == 'ParenExpr' or g.get('opcode') == '!'):
+            if g.get('kind') == 'UnaryOperator':
+                neg = not neg
+            g = tu.strip(tu.kids(g)[0], casts=True)
+        okg = False
+        if g is not None and g.get('kind') == 'CXXMemberCallExpr' and neg:
+            mf = tu.callee_fn(g)
+            obj = tu.call_parts(g)[1]
+            if mf is not None and isref(obj, mid) and _method_is_field_set(tu, x, mf, f2):
+                okg = True
+        elif g is not None and g.get('kind') == 'BinaryOperator' and g.get('opcode') == '==' and not neg:
+            u, v = tu.kids(g)[:2]
+            for p_, q_ in ((u, v), (v, u)):
+                p0 = tu.strip(p_, casts=True)
+                if p0 is not None and p0.get('kind') == 'MemberExpr' and p0.get('name') == f2 and isref(tu.kids(p0)[0], mid) and \
+                        any(_nposish(tu, x, y) for y in tu.walk(q_)):
+                    okg = True
+        if not okg:
+            return None
+        guarded = True
+    elif char_test(dc) != 'dot':
+        return None
+    if not has_break and not guarded:
+        return None
+    _MARKS_MEMO[key] = {'rec': rec, 'sep': f1, 'dot': f2, 'has_break': has_break, 'guarded': guarded, 'fn': hf}
+    return _MARKS_MEMO[key]
+
+
+def _nposish(tu, x, y):
+    """a reference to std::string::npos (also where the side table has no entry: in-class member initialisers)"""
+    return x.is_npos_ref(y) or (y.get('kind') in ('DeclRefExpr', 'MemberExpr') and
+                                (y.get('referencedDecl', {}).get('name') == 'npos' or y.get('name') == 'npos'))
+
+
+def _is_char_at(tu, e, sid, iid):
+    """e is  s[i]  /  s.at(i)"""
+    e = tu.strip(e, casts=True)
+    if e is None:
+        return False
+
+    def isref(y, did):
+        y = tu.strip(y, casts=True)
+        return y is not None and y.get('kind') == 'DeclRefExpr' and y.get('referencedDecl', {}).get('id') == did
+    if e.get('kind') == 'CXXOperatorCallExpr' and last_name(tu.sd(e).get('q')) == 'operator[]' and len(tu.kids(e)) == 3:
+        return isref(tu.kids(e)[1], sid) and isref(tu.kids(e)[2], iid)
+    if e.get('kind') == 'CXXMemberCallExpr' and last_name(tu.sd(e).get('q')) == 'at':
+        s_, obj, args = tu.call_parts(e)
+        return len(args) == 1 and isref(obj, sid) and isref(args[0], iid)
+    return False
+
+
+def _method_is_field_set(tu, x, mf, fname):
+    """bool m() const { return FIELD != npos; }"""
+    body = tu.body(mf)
+    if body is None or mf.get('params'):
+        return False
+    st = [y for y in tu.kids(body) if y.get('kind')]
+    if len(st) != 1 or st[0].get('kind') != 'ReturnStmt' or not tu.kids(st[0]):
+        return False
+    c = tu.strip(tu.kids(st[0])[0], casts=True)
+    if c is None or c.get('kind') != 'BinaryOperator' or c.get('opcode') != '!=':
+        return False
+    u, v = tu.kids(c)[:2]
+    for p_, q_ in ((u, v), (v, u)):
+        p0 = tu.strip(p_, casts=True)
+        if p0 is not None and p0.get('kind') == 'MemberExpr' and p0.get('name') == fname and \
+                any(_nposish(tu, x, y) for y in tu.walk(q_)):
+            return True
+    return False
+
+
 class FileNameTS:
     """Path-sensitive typestate over the size_t locals of one FileName member.
 
@@ -5148,6 +5373,60 @@ class FileNameTS:
                 return self.ev(args[0], d) == 'L'
         return False
 
+    def marks_call(self, e):
+        """(call node, summary) if e is  scan(<the name>)  with a verified marks helper, or a local struct initialised with it"""
+        tu = self.tu
+        e = self.x.peel(e) if e is not None else None
+        for _ in range(4):
+            if e is None:
+                return None
+            if e.get('kind') == 'CallExpr':
+                ms = marks_scan(tu, tu.callee_fn(e))
+                args = tu.kids(e)[1:]
+                if ms is not None and len(args) == 1 and self.x.objkey(args[0]) == self.FKEY and \
+                        tu.fn_file(ms['fn']) == tu.fn_file(self.f):
+                    return e, ms
+                return None
+            dv, v = self.x.var_of(e)
+            if dv is None or v['param'] or v['defs'] and len(v['defs']) != 1:
+                return None
+            if v['escaped'] and not top_const(v['ct']):
+                return None
+            init = self.x.single_init(dv)
+            e = self.x.peel(init) if init is not None else None
+        return None
+
+    def marks_field(self, e, d):
+        """abstract value of  marks.FIELD  (or FIELD inside a method of the marks struct that is being evaluated)"""
+        tu = self.tu
+        if e is None or e.get('kind') != 'MemberExpr' or tu.sd(e).get('k') != 'member':
+            return None
+        ks = tu.kids(e)
+        base = tu.strip(ks[0], casts=True) if ks else None
+        if (base is None or tu.is_this(base)) and getattr(self, '_mk', None) is not None:
+            return d.get(('mk', self._mk, e.get('name')))
+        mc = self.marks_call(base) if base is not None else None
+        if mc is not None:
+            return d.get(('mk', mc[0]['id'], e.get('name')))
+        return None
+
+    def marks_method(self, e):
+        """(call id of the marks value, return expression) for  marks.m()  with  m() const { return <expr>; }"""
+        tu = self.tu
+        if e is None or e.get('kind') != 'CXXMemberCallExpr':
+            return None
+        s_, obj, args = tu.call_parts(e)
+        if obj is None or args:
+            return None
+        mc = self.marks_call(obj)
+        mf = tu.callee_fn(e)
+        if mc is None or mf is None or mf.get('rec') != mc[1]['rec'].get('q') or not mf.get('const') or tu.body(mf) is None:
+            return None
+        st = [y for y in tu.kids(tu.body(mf)) if y.get('kind')]
+        if len(st) != 1 or st[0].get('kind') != 'ReturnStmt' or not tu.kids(st[0]):
+            return None
+        return mc[0]['id'], tu.kids(st[0])[0]
+
     def sib_call(self, e):
         """the call node if e is `ext()` / `this->ext()` of the analysed FileName, or a string local initialised with it"""
         tu = self.tu
@@ -5190,6 +5469,19 @@ class FileNameTS:
             v = self.local(e)
             if v is not None:
                 return self.val(d, v)
+        if k == 'MemberExpr':
+            mv = self.marks_field(e, d)
+            if mv is not None:
+                return mv
+        if k == 'CXXMemberCallExpr':
+            mm = self.marks_method(e)
+            if mm is not None:
+                save = getattr(self, '_mk', None)
+                self._mk = mm[0]
+                try:
+                    return self.ev(mm[1], d)
+                finally:
+                    self._mk = save
         if k in ('CallExpr', 'CXXMemberCallExpr') and ('call', e.get('id')) in d:
             return d[('call', e['id'])]
         c = x.poly_at(e, None)
@@ -5307,6 +5599,15 @@ class FileNameTS:
         while c is not None and c.get('kind') == 'UnaryOperator' and c.get('opcode') == '!':
             neg = not neg
             c = tu.strip(tu.kids(c)[0], casts=True)
+        mm = self.marks_method(c) if c is not None else None
+        if mm is not None:
+            save = getattr(self, '_mk', None)
+            self._mk = mm[0]
+            try:
+                r = self.truth(mm[1], d)
+            finally:
+                self._mk = save
+            return None if r is None else ((not r) if neg else r)
         if c is None or c.get('kind') != 'BinaryOperator' or c.get('opcode') not in ('==', '!='):
             return None
         la, ra = (self.ev(y, d) for y in tu.kids(c)[:2])
@@ -5465,6 +5766,30 @@ class FileNameTS:
                     self.ret_vals.add((rv, 'nosep' if d.get('$nosep') else 'sep' if d.get('$sep') else None))
                 else:
                     self.returns.append((n, self.strval(ks[0], d), d))
+            return [st]
+        if k == 'CallExpr' and ('mk', n['id']) not in d:
+            mc = self.marks_call(n)
+            if mc is not None and mc[0] is n:
+                ms = mc[1]
+                out = []
+                for sepv in (('N', 'S') if ms['has_break'] else ('T',)):
+                    for dotv in ('N', 'DG' if ms['has_break'] else 'D'):
+                        if (sepv == 'N' and d.get('$sep')) or (sepv == 'S' and d.get('$nosep')):
+                            continue
+                        d2 = dict(d)
+                        d2[('mk', n['id'])] = True
+                        d2[('mk', n['id'], ms['sep'])] = sepv
+                        d2[('mk', n['id'], ms['dot'])] = dotv
+                        if sepv == 'N':
+                            d2['$nosep'] = True
+                        elif sepv == 'S':
+                            d2['$sep'] = True
+                        out.append(self.fz(d2))
+                return out
+        if k == 'MemberExpr':
+            cur = self.marks_field(n, d)
+            if cur in DOTISH and not d.get('$nosep'):
+                self.note_use(n, None, cur, name=tu.show(n))
             return [st]
         if k == 'CXXMemberCallExpr' and self.sib_call(n) is n and ('sib', n['id']) not in d:
             # ext() of the same name: by its own contract (checked for ext() itself under R-C18-8) it returns "" when the last
@@ -5636,7 +5961,7 @@ class FileNameTS:
             return
         self.setv(d, v, self.ev(rhs, d))
 
-    def note_use(self, n, v, cur):
+    def note_use(self, n, v, cur, name=None):
         tu = self.tu
         p = tu.par(n)
         lval = True
@@ -5670,7 +5995,7 @@ class FileNameTS:
             cq = tu.sd(q).get('q') or ''
             if cq.startswith('std::basic_string<') or '__normal_iterator' in cq:
                 how = 'boundary'
-        self.uses.append((cur, self.x.vars[v]['name'], n, how))
+        self.uses.append((cur, name if name is not None else self.x.vars[v]['name'], n, how))
 
     def refine(self, blk, si, st):
         c = deciding_cond(self.tu, blk, self.g)
@@ -5700,6 +6025,11 @@ class FileNameTS:
                 if o not in res:
                     res.append(o)
             return res
+        if c is not None and c.get('kind') == 'CXXMemberCallExpr' and self.marks_method(c) is not None:
+            t = self.truth(c, dict(st))
+            if t is None:
+                return [st]
+            return [st] if t == truth else []
         if c is not None and c.get('kind') == 'CXXMemberCallExpr' and last_name(tu.sd(c).get('q')) == 'empty' and \
                 (tu.sd(c).get('q') or '').startswith('std::basic_string<'):
             s_, obj, args = tu.call_parts(c)
@@ -5769,6 +6099,8 @@ class FileNameTS:
                 cur = d.get(a[1], 'T')
                 d[a[1]] = {'D': 'DG', 'D?': 'DG?'}.get(cur, cur) if eq else 'DX'
                 return [self.fz(d)]
+            if v is None and a in ('S', 'D', 'DG', 'DX', 'L', 'Z', 'LEN', 'D+1', 'DB', 'DB+1', 'BLEN'):
+                return [] if eq else [st]         # a value that is known not to be npos (a field of the scan result)
             if v is None:
                 return [st]
             v = self.root(d, v)
@@ -5885,6 +6217,10 @@ def search_kinds(tu, ts, f, kinds, depth, seen=None):
                 kinds.setdefault('last' if last else 'first', n)
             if args and ts.is_sep(args[0]) and last:
                 has_sep = True
+        elif k == 'CallExpr' and marks_scan(tu, tu.callee_fn(n)) is not None:
+            ms = marks_scan(tu, tu.callee_fn(n))
+            kinds.setdefault('last' if ms['guarded'] else 'first', n)
+            has_sep = True
         elif k in ('CallExpr', 'CXXMemberCallExpr'):
             hf = tu.callee_fn(n)
             if hf is not None and not hf['dep'] and (not hf.get('rec') or hf.get('rec') == FNAME) and \
@@ -6014,6 +6350,15 @@ def check_filename(ctx, tu):
                               tu.loc(node), key='%s|%s|%s|cut' % (R8, file, fname))
     # ---- search agreement: every sibling locates the extension dot with the same search as ext()
     ref = searches.get('ext')
+    if ref is not None and set(ref[0]) == {'first'} and marks_scan(tu, tu.callee_fn(ref[0]['first'])) is not None:
+        node = ref[0]['first']
+        ms_ = marks_scan(tu, tu.callee_fn(node))
+        n1 += 1
+        ctx.violation(R1, '%s: which dot starts the extension' % fn_name(ref[1]),
+                      "the scan in `%s` stores every '.' it passes on its way back to the separator into `%s`, so what is left is the "
+                      "FIRST '.' of the last component: ext() of \"a.tar.gz\" becomes \"tar.gz\" and name() \"a\"; the extension "
+                      "starts behind the LAST '.' (the scan must keep the first dot it meets)" % (fn_name(ms_['fn']), ms_['dot']),
+                      tu.loc(node), key='%s|%s|%s|dot-search-first' % (R1, tu.fn_file(ref[1]), fn_name(ref[1])))
     for name in sorted(searches):
         if name == 'ext' or name not in CUT_SPEC:
             continue
@@ -8881,6 +9226,19 @@ def check_normal_form(ctx, tu):
                             if y.get('kind') == 'DeclRefExpr' and y.get('referencedDecl', {}).get('id') in x.params:
                                 init_from_param = y
         if not ws and init_from_param is None:
+            # a constructor that hands its argument to another (non-copy) constructor of FileName is normalised by that one
+            if f.get('ctor') and f.get('rec') == FNAME and f.get('ctor') not in ('copy', 'move') and f.get('params'):
+                for b in x.g.blocks.values():
+                    for e in b.el:
+                        if e[0] == 'I' and e[3] == '<base>':
+                            ie = tu.node(e[1])
+                            tgt = [y for y in (tu.walk(ie) if ie is not None else ()) if y.get('kind') == 'CXXConstructExpr' and
+                                   tu.sd(y).get('q') == FNAME + '::FileName']
+                            tf_ = tu.callee_fn(tgt[0]) if tgt else None
+                            if tf_ is not None and tf_.get('ctor') not in ('copy', 'move') and tf_['id'] != f['id'] and tf_.get('params'):
+                                n += 1
+                                ctx.ok(R, '%s %s' % (fn_name(f), f['fty']), 'delegates to `%s %s`, which is checked on its own'
+                                       % (fn_name(tf_), tf_['fty']), tu.fn_loc(f))
             continue
         n += 1
         file, fname = tu.fn_file(f), fn_name(f)
